@@ -720,6 +720,9 @@ func main() {
 		os.Exit(2)
 	}
 	problems = append(problems, genIRHandlers(repo, out)...)
+	for _, g := range extraGens { // further generated files (one generator per file of this package)
+		problems = append(problems, g(repo, out)...)
+	}
 	for _, p := range problems {
 		fmt.Println("PROBLEM " + p)
 	}
